@@ -30,6 +30,7 @@ func TestC14_Header(t *testing.T) {
 	decodeLocs := gen.DecodeLocations()
 	rapid.Check(t, func(t *rapid.T) {
 		c := newCtx(t, "header")
+		defer codePanic(c)
 		g := &gen.Tags{}
 		h := gen.Header(t, g)
 		loc := rapid.SampledFrom(decodeLocs).Draw(t, "dloc")
@@ -91,12 +92,14 @@ func TestC14_Header(t *testing.T) {
 			}
 		}
 		// the type's own MarshalJSON / UnmarshalJSON pair
-		if jb, err := h.MarshalJSON(); err != nil {
+		if known(fpHeaderMarshalJSON) {
+			g.Add("marshaljson_pair_excluded")
+		} else if jb, err := h.MarshalJSON(); err != nil {
 			c.fail("C14/header/json/encode-error", "%v", err)
 		} else {
 			z := new(types.Header)
 			if err := z.UnmarshalJSON(jb); err != nil {
-				c.fail("C14/header/json/marshaljson-drops-manifesthash", "Header.UnmarshalJSON(Header.MarshalJSON()) failed: %v", err)
+				c.fail(fpHeaderMarshalJSON, "Header.UnmarshalJSON(Header.MarshalJSON()) failed: %v", err)
 			} else {
 				d := &diff{}
 				diffHeader(d, "", h, z)
@@ -148,14 +151,13 @@ func decodeWoh(b []byte, loc common.Location) (*types.WorkObjectHeader, error) {
 	return y, nil
 }
 
-const fpNilCoinbase = "C14/woheader/nil-inner-coinbase-normalised"
-
 func TestC14_WorkObjectHeader(t *testing.T) {
 	rapid.Check(t, func(t *rapid.T) {
 		c := newCtx(t, "woheader")
+		defer codePanic(c)
 		g := &gen.Tags{}
 		loc := gen.Location(t, "loc")
-		wh := gen.WorkObjectHeader(t, "wh", loc, gen.WoOpts{Regime: gen.AnyRegime, AuxPow: -1, NilInnerCoinbase: true}, g)
+		wh := gen.WorkObjectHeader(t, "wh", loc, gen.WoOpts{Regime: gen.AnyRegime, AuxPow: -1, NilInnerCoinbase: !known(fpNilCoinbase)}, g)
 		forkFields := !g.Has("woh:prefork_forkfields")
 		nilCoinbase := g.Has("woh:coinbase_nil_inner")
 		hashFirst := rapid.Bool().Draw(t, "hashFirst")
@@ -194,10 +196,13 @@ func TestC14_WorkObjectHeader(t *testing.T) {
 			}
 			addressTyping(c, "woheader.coinbase", y.PrimaryCoinbase(), loc)
 		}
-		if cp := types.CopyWorkObjectHeader(wh); cp.Hash() != h0 || cp.SealHash() != s0 {
+		nilAux := auxNilBytes(wh.AuxPow())
+		if nilAux && known(fpAuxCopyNil) {
+			g.Add("copy_hash_excluded")
+		} else if cp := types.CopyWorkObjectHeader(wh); cp.Hash() != h0 || cp.SealHash() != s0 {
 			fp := "C14/woheader/copy-hash"
-			if wh.AuxPow() != nil && (wh.AuxPow().AuxPow2() == nil || wh.AuxPow().Signature() == nil) {
-				fp = "C14/auxpow/copy-nil-bytes-become-empty" // see TestC14_AuxPow
+			if nilAux {
+				fp = fpAuxCopyNil // see TestC14_AuxPow
 			}
 			c.fail(fp, "CopyWorkObjectHeader changes the hash %x -> %x", h0, cp.Hash())
 		}
@@ -214,28 +219,33 @@ func TestC14_WorkObjectHeader(t *testing.T) {
 					d := &diff{}
 					// JSON keeps the fork-only fields whenever they are set
 					diffWoh(d, "", wh, z, true)
+					if nilAux && known(fpAuxJSONNil) {
+						d.dropDerived() // exactly the known class: only Hash() moves, the accessors are still compared
+					}
 					if !d.ok() {
 						fp := "C14/woheader/json/rpc-accessors"
-						if ap := wh.AuxPow(); ap != nil && (ap.AuxPow2() == nil || ap.Signature() == nil) && d.fields() == "" {
+						if nilAux && d.fields() == "" {
 							// absent auxpow2/signature come back as present-and-empty: only the hash moves
-							fp = "C14/woheader/json/rpc-auxpow-nil-bytes-become-empty"
+							fp = fpAuxJSONNil
 						}
 						c.fail(fp, "JSON-RPC round trip differs: %s (json %s)", d, jb)
 					}
 				}
 			}
-			if jb, err := wh.MarshalJSON(); err != nil {
+			if known(fpWohMarshalJSON) {
+				g.Add("marshaljson_pair_excluded")
+			} else if jb, err := wh.MarshalJSON(); err != nil {
 				c.fail("C14/woheader/json/encode-error", "%v", err)
 			} else {
 				z := new(types.WorkObjectHeader)
 				if err := z.UnmarshalJSON(jb); err != nil {
 					// MarshalJSON never emits parentHash and writes AuxPow / the share counters as "{}"
-					c.fail("C14/woheader/json/marshaljson-lossy", "UnmarshalJSON(MarshalJSON(wh)) failed: %v", err)
+					c.fail(fpWohMarshalJSON, "UnmarshalJSON(MarshalJSON(wh)) failed: %v", err)
 				} else {
 					d := &diff{}
 					diffWoh(d, "", wh, z, true)
 					if !d.ok() {
-						c.fail("C14/woheader/json/marshaljson-lossy", "MarshalJSON round trip differs: %s", d)
+						c.fail(fpWohMarshalJSON, "MarshalJSON round trip differs: %s", d)
 					}
 				}
 			}
@@ -284,6 +294,7 @@ func TestC14_WorkObjectHeader(t *testing.T) {
 func TestC14_AuxPow(t *testing.T) {
 	rapid.Check(t, func(t *rapid.T) {
 		c := newCtx(t, "auxpow")
+		defer codePanic(c)
 		g := &gen.Tags{}
 		auxShape := ""
 		if rapid.Bool().Draw(t, "template") {
@@ -316,10 +327,12 @@ func TestC14_AuxPow(t *testing.T) {
 				if !d.ok() {
 					c.fail("C14/auxtemplate/accessors", "decode(encode(at)) differs: %s", d)
 				}
-				if b2 := mustMarshal(c, y.ProtoEncode()); !bytes.Equal(b1, b2) {
+				if at.Sigs() == nil && known(fpTemplateNilSigs) {
+					g.Add("reencode_excluded")
+				} else if b2 := mustMarshal(c, y.ProtoEncode()); !bytes.Equal(b1, b2) {
 					fp := "C14/auxtemplate/reencode"
 					if at.Sigs() == nil {
-						fp = "C14/auxtemplate/nil-sigs-normalised" // absent sigs come back as present-and-empty
+						fp = fpTemplateNilSigs // absent sigs come back as present-and-empty
 					}
 					c.fail(fp, "re-encoding differs: %x vs %x", b2, b1)
 				}
@@ -353,11 +366,13 @@ func TestC14_AuxPow(t *testing.T) {
 					c.fail("C14/auxpow/template-hash", "ConvertToTemplate().Hash() differs after the round trip")
 				}
 			}
-			if cp := types.CopyAuxPow(ap); !bytes.Equal(mustMarshal(c, cp.ProtoEncode()), b1) {
-				if ap.AuxPow2() == nil || ap.Signature() == nil {
+			if auxNilBytes(ap) && known(fpAuxCopyNil) {
+				g.Add("copy_excluded")
+			} else if cp := types.CopyAuxPow(ap); !bytes.Equal(mustMarshal(c, cp.ProtoEncode()), b1) {
+				if auxNilBytes(ap) {
 					// CopyAuxPow turns a nil auxPow2 into an empty slice, which the proto
 					// encoding distinguishes (optional bytes): the AuxPoW block hash changes.
-					c.fail("C14/auxpow/copy-nil-bytes-become-empty", "CopyAuxPow changes the encoding (nil auxPow2/signature become empty): %x vs %x", mustMarshal(c, cp.ProtoEncode()), b1)
+					c.fail(fpAuxCopyNil, "CopyAuxPow changes the encoding (nil auxPow2/signature become empty): %x vs %x", mustMarshal(c, cp.ProtoEncode()), b1)
 				} else {
 					c.fail("C14/auxpow/copy", "CopyAuxPow changes the encoding")
 				}
